@@ -215,3 +215,63 @@ Definition match_attributes (a : attrs) (ps : list policy) (all_endpoints : list
       | Some p => Some (flow_name p, if list_len0 (p_subset p) then all_endpoints else p_subset p)
       end
   end.
+
+(* ---------- a MatchAttributes that overlaps a Sync (clusterinfo.go: Sync / loadDispatchPolicies) ----------
+   Memory: every slice ever stored in currentDispatchPolicies (an atomic.Value) is an array of the
+   heap; the atomic.Value holds the index of the one in force.  Sync stores the slice of the new
+   object: a new array and a pointer swap — it never writes into an array stored before.
+   MatchAttributes loads the slice header once (array + length), MatchPolicies then reads
+   policies[i] from memory when it gets to it, and MatchAttributes reads the fields of the
+   returned &policies[i] from memory at the end. *)
+Record cstate := mkCS { cs_heap : list (list policy); cs_cur : nat }.
+
+Definition cs_init (old : list policy) : cstate := mkCS [old] 0.
+Definition cs_sync (s : cstate) (new : list policy) : cstate :=
+  mkCS (cs_heap s ++ [new])%list (List.length (cs_heap s)).
+Definition cs_len (s : cstate) (arr : nat) : nat :=
+  match nth_error (cs_heap s) arr with Some l => List.length l | None => O end.
+Definition cs_read (s : cstate) (arr i : nat) : option policy :=
+  match nth_error (cs_heap s) arr with Some l => nth_error l i | None => None end.
+
+(* the MatchPolicies loop over the loaded slice (array [arr], [n] elements left from index [i]);
+   [fire = Some j]: Sync(new) runs just before the j-th next element is read *)
+Fixpoint scan (a : attrs) (s : cstate) (new : list policy) (arr i n : nat) (fire : option nat)
+  : cstate * option nat * option nat :=
+  match n with
+  | O => (s, None, fire)
+  | S n' =>
+      let s1 := match fire with Some O => cs_sync s new | _ => s end in
+      let fire1 := match fire with Some (S j) => Some j | _ => None end in
+      match cs_read s1 arr i with
+      | Some p => if policy_matches a p then (s1, Some i, fire1)
+                  else scan a s1 new arr (S i) n' fire1
+      | None => (s1, None, fire1)
+      end
+  end.
+
+(* MatchAttributes on the state [sl], with a Sync(new) pending at [fire] (None = no Sync):
+   when the loop ends before the Sync is due, the Sync runs before the fields of the returned
+   policy are read *)
+Definition match_from (a : attrs) (sl : cstate) (new : list policy) (eps : list string) (fire : option nat)
+  : option (string * list string) :=
+  let arr := cs_cur sl in                                   (* loadDispatchPolicies() *)
+  let '(s1, r, fire1) := scan a sl new arr O (cs_len sl arr) fire in
+  let s2 := match fire1 with Some _ => cs_sync s1 new | None => s1 end in
+  match r with
+  | None => None                                            (* ErrNoRouterRuleMatches *)
+  | Some i =>
+      match cs_read s2 arr i with
+      | None => None
+      | Some p => Some (flow_name p, if list_len0 (p_subset p) then eps else p_subset p)
+      end
+  end.
+
+(* interruption point k: 0 = Sync completes before the list is loaded; k >= 1 = Sync runs after the
+   load, just before the (k-1)-th policy is read, or — when the loop ends earlier — before the
+   fields of the returned policy are read *)
+Definition overlapped_match (a : attrs) (old new : list policy) (eps : list string) (k : nat)
+  : option (string * list string) :=
+  match k with
+  | O => match_from a (cs_sync (cs_init old) new) new eps None
+  | S j => match_from a (cs_init old) new eps (Some j)
+  end.
